@@ -29,6 +29,9 @@ pub enum Ev {
     ReadEof,
     ReadErr(String),
     WriteErr(String),
+    /// the (first) line a failing write was trying to put on the wire, including the part of
+    /// that line earlier short writes had already delivered
+    WriteAttempt(String),
     Change(Vec<String>),
     Fault(String),
     ServerClose(String),
@@ -57,6 +60,7 @@ impl Ev {
             Ev::ReadEof => "eof".into(),
             Ev::ReadErr(_) => "re".into(),
             Ev::WriteErr(_) => "we".into(),
+            Ev::WriteAttempt(_) => "wa".into(),
             Ev::Change(_) => "chg".into(),
             Ev::Fault(f) => format!("F:{}", f),
             Ev::ServerClose(_) => "sc".into(),
@@ -1073,6 +1077,13 @@ impl AsyncWrite for ClientEndpoint {
         if let Some(kind) = w.write_err.clone() {
             w.write_calls += 1;
             w.write_pending_left = None;
+            if w.judge_enabled && !buf.is_empty() {
+                let mut line = w.judge.line_buf.clone();
+                let upto = buf.iter().position(|b| *b == b'\n').unwrap_or(buf.len());
+                line.extend_from_slice(&buf[..upto]);
+                let text = String::from_utf8_lossy(&line).to_string();
+                w.log(Ev::WriteAttempt(crate::canon::clip(&text, 40)));
+            }
             let seq = w.log(Ev::WriteErr(kind.clone()));
             if w.client_observed_end.is_none() {
                 w.client_observed_end = Some(seq);
